@@ -106,6 +106,22 @@ Proof.
   apply (f_equal am_raw) in V. exact V.
 Qed.
 
+(* m.grow(20+Length); m.Raw = m.Raw[:20+Length] *)
+Lemma refine_cut m : inv m ->
+  exists m0, cut_at_length m = Ok m0 /\ inv m0 /\ len (m_raw m0) = 20 + m_length m /\
+    vis m0 = a_with_raw (vis m) (a_cut (vis m)).
+Proof.
+  intros (Hw & Hs & Ht). unfold cut_at_length, messageHeaderSize, grow.
+  destruct (grow_cut (m_raw m) (20 + m_length m) (20 + m_length m) Hw) as (r1 & Y & E & W1 & L1 & B1 & LY); [lia|lia|].
+  cbn [m_raw set_raw]. rewrite E. cbn [bind]. eexists. split; [reflexivity|].
+  assert (Y = []) by (apply lenN_0; lia). subst Y. rewrite app_nil_r in B1.
+  split; [|split].
+  - split; [exact W1|]. cbn [m_raw m_length m_tid set_raw]. split; [lia | exact Ht].
+  - cbn [m_raw set_raw]. exact L1.
+  - unfold vis, a_with_raw, a_cut. cbn [m_meth m_class m_length m_tid m_attrs m_attrs_nil m_raw set_raw am_meth am_class am_length am_tid am_attrs am_nil am_raw].
+    rewrite B1. reflexivity.
+Qed.
+
 Definition setter_wf (s : setter) : Prop := match s with STid tid => lenN tid = 12 | _ => True end.
 
 (* every setter: same verdict, and on success the abstract result; the invariant is kept *)
@@ -159,33 +175,55 @@ Proof.
     apply add_step; [exact Hinv|].
     rewrite unknown_value_len by (unfold CUR_UNKNOWN_ESZ; lia). lia.
   - (* MI *)
-    unfold mi_add. rewrite has_fp_vis. destruct (existsb _ (m_attrs m)); [reflexivity|].
-    destruct (bump_length m 24 Hinv) as (m1 & E1 & W1 & L1 & F1 & F2 & F3 & F4 & F5 & B1).
+    unfold mi_add, mi_add_gen. rewrite has_fp_vis. destruct (existsb _ (m_attrs m)); [reflexivity|].
+    destruct (refine_cut m Hinv) as (m0 & Ec & Hinv0 & L0 & V0). rewrite Ec. cbn [bind].
+    assert (F0 : m_length m0 = m_length m /\ m_tid m0 = m_tid m /\ m_attrs m0 = m_attrs m).
+    { unfold cut_at_length in Ec. destruct (reslice _ _ _); cbn [bind] in Ec; try discriminate. injection Ec as <-. auto. }
+    destruct F0 as (F0l & F0t & F0a).
+    destruct (bump_length m0 24 Hinv0) as (m1 & E1 & W1 & L1 & F1 & F2 & F3 & F4 & F5 & B1).
     rewrite E1. cbn [bind]. rewrite new_hmac_sha1_spec. cbn [bind].
     rewrite copy_zero_exact by apply hmac_sha1_length.
     set (hv := hmac_sha1 key (bytes (m_raw m1))).
     destruct (wf_scratch (m_raw m1) hv W1) as (Wsc & Bsc & Lsc).
-    set (m2 := set_length (set_raw m1 (scratch (m_raw m1) hv)) (m_length m)).
+    set (m2 := set_length (set_raw m1 (scratch (m_raw m1) hv)) (m_length m0)).
     assert (Hinv2 : inv m2).
-    { split; [exact Wsc|]. cbn [m_raw m_length m_tid m2 set_length set_raw]. split; [lia|]. rewrite F3. exact Ht. }
+    { split; [exact Wsc|]. cbn [m_raw m_length m_tid m2 set_length set_raw]. destruct Hinv0 as (_ & Hs0 & Ht0).
+      split; [lia|]. rewrite F3. exact Ht0. }
     pose proof (add_step m2 AttrMessageIntegrity hv Hinv2) as Hstep.
-    assert (Hv2 : vis m2 = a_with_raw (vis m) (lpoke (bytes (m_raw m)) 2 (be16 (u32 (m_length m + 24))))).
-    { unfold vis, a_with_raw, m2. cbn [m_meth m_class m_length m_tid m_attrs m_attrs_nil m_raw set_length set_raw am_meth am_class am_length am_tid am_attrs am_nil].
-      rewrite F1, F2, F3, F4, F5, Bsc, B1. reflexivity. }
-    unfold hv in *. rewrite B1 in *. cbn [vis am_raw am_length] . rewrite <- Hv2.
+    assert (Hv2 : vis m2 = a_with_raw (vis m) (lpoke (a_cut (vis m)) 2 (be16 (u32 (m_length m + 24))))).
+    { unfold vis at 1, m2. cbn [m_meth m_class m_length m_tid m_attrs m_attrs_nil m_raw set_length set_raw].
+      rewrite F1, F2, F3, F4, F5, Bsc, B1.
+      apply (f_equal am_raw) in V0 as V0r. cbn [vis am_raw a_with_raw] in V0r. rewrite V0r, F0l.
+      apply (f_equal (fun a => (am_meth a, am_class a, am_tid a, am_attrs a, am_nil a))) in V0.
+      cbn [vis am_meth am_class am_tid am_attrs am_nil a_with_raw] in V0. injection V0 as -> -> -> -> ->.
+      reflexivity. }
+    unfold hv in *. rewrite B1 in *.
+    apply (f_equal am_raw) in V0 as V0r. cbn [vis am_raw a_with_raw] in V0r. rewrite V0r, F0l in *.
+    cbn [vis am_raw am_length] in *. rewrite <- Hv2.
     apply Hstep. cbn [m_length m2 set_length]. rewrite hmac_sha1_length. lia.
   - (* FP *)
-    unfold fp_add.
-    destruct (bump_length m 8 Hinv) as (m1 & E1 & W1 & L1 & F1 & F2 & F3 & F4 & F5 & B1).
+    unfold fp_add, fp_add_gen.
+    destruct (refine_cut m Hinv) as (m0 & Ec & Hinv0 & L0 & V0). rewrite Ec. cbn [bind].
+    assert (F0 : m_length m0 = m_length m /\ m_tid m0 = m_tid m /\ m_attrs m0 = m_attrs m).
+    { unfold cut_at_length in Ec. destruct (reslice _ _ _); cbn [bind] in Ec; try discriminate. injection Ec as <-. auto. }
+    destruct F0 as (F0l & F0t & F0a).
+    destruct (bump_length m0 8 Hinv0) as (m1 & E1 & W1 & L1 & F1 & F2 & F3 & F4 & F5 & B1).
     rewrite E1. cbn [bind].
-    set (m2 := set_length m1 (m_length m)).
+    set (m2 := set_length m1 (m_length m0)).
     assert (Hinv2 : inv m2).
-    { split; [exact W1|]. cbn [m_raw m_length m_tid m2 set_length]. split; [lia|]. rewrite F3. exact Ht. }
+    { split; [exact W1|]. cbn [m_raw m_length m_tid m2 set_length]. destruct Hinv0 as (_ & Hs0 & Ht0).
+      split; [lia|]. rewrite F3. exact Ht0. }
     pose proof (add_step m2 AttrFingerprint (be32 (fingerprint_value (bytes (m_raw m1)))) Hinv2) as Hstep.
-    assert (Hv2 : vis m2 = a_with_raw (vis m) (lpoke (bytes (m_raw m)) 2 (be16 (u32 (m_length m + 8))))).
-    { unfold vis, a_with_raw, m2. cbn [m_meth m_class m_length m_tid m_attrs m_attrs_nil m_raw set_length am_meth am_class am_length am_tid am_attrs am_nil].
-      rewrite F1, F2, F3, F4, F5, B1. reflexivity. }
-    rewrite B1 in *. cbn [vis am_raw am_length]. rewrite <- Hv2.
+    assert (Hv2 : vis m2 = a_with_raw (vis m) (lpoke (a_cut (vis m)) 2 (be16 (u32 (m_length m + 8))))).
+    { unfold vis at 1, m2. cbn [m_meth m_class m_length m_tid m_attrs m_attrs_nil m_raw set_length].
+      rewrite F1, F2, F3, F4, F5, B1.
+      apply (f_equal am_raw) in V0 as V0r. cbn [vis am_raw a_with_raw] in V0r. rewrite V0r, F0l.
+      apply (f_equal (fun a => (am_meth a, am_class a, am_tid a, am_attrs a, am_nil a))) in V0.
+      cbn [vis am_meth am_class am_tid am_attrs am_nil a_with_raw] in V0. injection V0 as -> -> -> -> ->.
+      reflexivity. }
+    rewrite B1 in *.
+    apply (f_equal am_raw) in V0 as V0r. cbn [vis am_raw a_with_raw] in V0r. rewrite V0r, F0l in *.
+    cbn [vis am_raw am_length] in *. rewrite <- Hv2.
     apply Hstep. cbn [m_length m2 set_length]. rewrite lenN_be32. lia.
 Qed.
 
